@@ -645,9 +645,9 @@ class HolzapfelOgden(_HyperElastic):
     Mu1: float = _params.PositiveScalarParameter()
     Mu2: float = _params.PositiveScalarParameter()
 
-    T1 = _params.VectorParameter()
+    T1 = _params.UnitVectorParameter()
     """direction(s) 1, used for the invariants I4 and I8"""
-    T2 = _params.VectorParameter()
+    T2 = _params.UnitVectorParameter()
     """direction(s) 2, used for the invariants I6 and I8"""
 
     __ks: float = _params.PositiveScalarParameter()
